@@ -4,7 +4,9 @@
    Objects: notes a b e, counters c k (initial value 1), condition variable v (with mutex mu and
    a flag).  Caller operation
        W<objects>[d|p]      objects: 1..5 letters from {a,b,e,c,k,v}; more than 4 takes the heap
-                            bookkeeping path.  d = deadline D1, p = deadline already past.
+                            bookkeeping path.  d = deadline D1, p = deadline already past,
+                            D = deadline D2; in a program that uses D, note e is created with its own
+                            expiry D1 (a set holding a note that expires before the call's deadline).
                             If v is in the set the caller holds mu around the call and passes
                             lock/unlock callbacks.
    Other operations
@@ -45,15 +47,17 @@ static struct callrec cr[MC_MAXF];
 static int sleeping_plain[MC_MAXF];
 
 static int oidx (char ch) { const char *p = strchr (oletters, ch); return (p && ch) ? (int) (p - oletters) : -1; }
+static int e_expires;              /* the program uses deadline D: note e gets its own expiry D1 */
 static int wn_setup (const char *program) {
 	int t, k, n = h_parse (program);
 	if (n < 1) return -1;
-	cv_waiters_plain = 0;
+	cv_waiters_plain = 0; e_expires = 0;
 	for (t = 0; t < n; t++) for (k = 0; k < h_nops[t]; k++) {
 		const char *o = h_op[t][k]; size_t l = strlen (o);
 		if (o[0] == 'W') {
 			size_t i, m = l;
 			if (o[l-1] == 'd' || o[l-1] == 'p') m--;
+			else if (o[l-1] == 'D') { m--; e_expires = 1; }
 			if (m < 2 || m > 6) return -1;
 			for (i = 1; i < m; i++) if (oidx (o[i]) < 0) return -1;
 		} else if (o[0] == 'n' && l == 2 && oidx (o[1]) >= 0 && oidx (o[1]) <= OE) ;
@@ -70,14 +74,15 @@ static int wn_setup (const char *program) {
 }
 static void wn_init (void) {
 	int i;
-	for (i = 0; i < 3; i++) notes[i] = nsync_note_new (NULL, nsync_time_no_deadline);
+	for (i = 0; i < 3; i++) notes[i] = nsync_note_new (NULL, (i == OE && e_expires) ? h_time (H_D1) : nsync_time_no_deadline);
+	if (e_expires) mc_declare_instant (H_D1);
 	for (i = 0; i < 2; i++) ctrs[i] = nsync_counter_new (1);
 	nsync_mu_init (&mu); nsync_cv_init (&cv);
 	mc_name (&mu, sizeof mu, "mu"); mc_name (&cv, sizeof cv, "cv");
 	h_install_rwlock_listener ();
 }
 MC_ORACLE static int peek_ready (int o) {
-	if (o <= OE) return *(volatile uint32_t *) &notes[o]->notified != 0;
+	if (o <= OE) return *(volatile uint32_t *) &notes[o]->notified != 0 || (o == OE && e_expires && mc_now_ns () >= H_D1);
 	if (o <= OK) return nsync_counter_value (ctrs[o - OC]) == 0;
 	return 0;
 }
@@ -132,7 +137,7 @@ static int do_wait_n (int me, const char *o) {
 	int set[5], n = 0, r, has_cv = 0;
 	int64_t dl = MC_NEVER;
 	struct nsync_waitable_s w[5]; struct nsync_waitable_s *pw[5];
-	if (o[l-1] == 'd') { dl = H_D1; m--; } else if (o[l-1] == 'p') { dl = H_PAST; m--; }
+	if (o[l-1] == 'd') { dl = H_D1; m--; } else if (o[l-1] == 'p') { dl = H_PAST; m--; } else if (o[l-1] == 'D') { dl = H_D2; m--; }
 	for (i = 1; i < m; i++) {
 		int x = oidx (o[i]);
 		set[n] = x;
@@ -213,6 +218,16 @@ static void wn_observer (void) {
 	for (i = 0; i < 2; i++) nsync_counter_free (ctrs[i]);
 	mc_assert (cv.waiters == NULL, "a waiter record is still on the condition variable after all calls returned");
 }
+/* No thread can run and the clock is about to advance: every notifier / decrementer has finished, so a caller that is
+   still inside nsync_wait_n with a ready note or counter in its set is sleeping until a timer instead of returning. */
+MC_ORACLE static void wn_idle (void) {
+	int i, j;
+	for (i = 0; i < MC_MAXF; i++) if (cr[i].active)
+		for (j = 0; j < cr[i].n; j++) if (cr[i].set[j] != OV && ready_stamp[cr[i].set[j]]) {
+			mc_fail ("T%d keeps sleeping in nsync_wait_n until the next timer although object '%c' of its set is ready", i, oletters[cr[i].set[j]]);
+			return;
+		}
+}
 MC_ORACLE static void wn_final (void) { h_mu_idle (&mu); h_outcome_results (); }
 extern const struct mc_family fam_waitn;
-const struct mc_family fam_waitn = { "waitn", wn_setup, wn_init, wn_thread, wn_observer, wn_final };
+const struct mc_family fam_waitn = { "waitn", wn_setup, wn_init, wn_thread, wn_observer, wn_final, wn_idle };
